@@ -225,7 +225,7 @@ func (cr *concRun) main() {
 	}
 	// fair drain to quiescence: no more deviations, round-robin
 	w.SetFair(true)
-	w.AwaitQuiescence()
+	cr.quiesce()
 	cr.liveAtEnd = w.BlockedTasks()
 	w.NoPreempt(func() {
 		cr.auditNoCleanup = otter.VerifAuditCache(r.C, w.Now)
@@ -237,7 +237,7 @@ func (cr *concRun) main() {
 		for i := 0; i < 3; i++ {
 			mainCtx.opKind = "cleanup"
 			r.C.CleanUp()
-			w.AwaitQuiescence()
+			cr.quiesce()
 			var a *otter.VerifAudit
 			w.NoPreempt(func() { a = otter.VerifAuditCache(r.C, w.Now) })
 			if a.DrainStatus == 0 && a.WriteBufferSize == 0 {
@@ -262,7 +262,7 @@ func (cr *concRun) main() {
 		cr.finalWSize = r.C.WeightedSize()
 		cr.finalESize = r.C.EstimatedSize()
 		cr.finalMax = r.C.GetMaximum()
-		w.AwaitQuiescence()
+		cr.quiesce()
 		w.NoPreempt(func() { cr.auditFinal = otter.VerifAuditCache(r.C, w.Now) })
 		if cfg.Stats {
 			cr.finalStats = r.Exec(&Op{Kind: "stats"})
@@ -283,7 +283,7 @@ func (cr *concRun) main() {
 				break
 			}
 		}
-		w.AwaitQuiescence()
+		cr.quiesce()
 	}
 	cr.stop = true
 	simrt.WakeAll(unsafe.Pointer(&cr.execAddr))
@@ -317,4 +317,16 @@ func sortedEntryKeys(es []EntryView) []int {
 	}
 	sort.Ints(ks)
 	return ks
+}
+
+// quiesce waits until nothing but daemons is left; loaders parked by a stall plan are released
+// whenever the rest of the system has come to rest ("stall until quiescence").
+func (cr *concRun) quiesce() {
+	for {
+		cr.w.AwaitQuiescence()
+		if !cr.r.ReleaseStalled() {
+			return
+		}
+		cr.probe["stalled-loader-released-at-quiescence"]++
+	}
 }
